@@ -147,12 +147,18 @@ def main():
     violations, known_hits, undecided = [], [], []
     for r in results:
         if r['status'] == 'violation':
+            fresh = 0
             for f in r['failures']:
                 k = is_known(known, prop, r['unit'], f.get('obligation'))
                 if k:
                     known_hits.append((r, f, k))
                 else:
                     violations.append((r, f))
+                    fresh += 1
+            # only listed known findings failed, but a proof step / resource limit was hit too: the rest of the unit is not decided
+            if fresh == 0 and r.get('soft_undecided'):
+                r2 = dict(r, status='undecided', reason='; '.join(f"{u['message'][:160]} @{u['line']}" for u in r['soft_undecided'][:3]))
+                undecided.append(r2)
         elif r['status'] == 'undecided':
             undecided.append(r)
     # a known finding that no longer fails is reported (informational) - it is not an error
